@@ -62,6 +62,10 @@ class StoreDirectoriesDisjoint(Lemma):
         return [('same-directory-implies-same-context', z3.Implies(z3.And(ok, d1 == d2), z3.And(m1 == m2, p1 == p2))),
                 ('same-file-implies-same-context-and-key', z3.Implies(
                     z3.And(ok, z3.Concat(d1, sl, k1, z3.StringVal('.pickle')) == z3.Concat(d2, sl, k2, z3.StringVal('.pickle'))),
+                    z3.And(m1 == m2, p1 == p2, k1 == k2))),
+                # the property speaks of arbitrary ids: without the restriction the statement is false (known finding)
+                ('arbitrary-names: same-file-implies-same-context-and-key', z3.Implies(
+                    z3.Concat(d1, sl, k1, z3.StringVal('.pickle')) == z3.Concat(d2, sl, k2, z3.StringVal('.pickle')),
                     z3.And(m1 == m2, p1 == p2, k1 == k2)))]
 
 
